@@ -119,7 +119,13 @@ func (m *Matcher) pop() {
 }
 
 func (m *Matcher) merge() {
-	m.setBindings = m.setBindings[:len(m.setBindings)-1]
+	// The bindings created in the finished frame now belong to the enclosing
+	// frame, which has to undo them if it fails later on.
+	n := len(m.setBindings)
+	if n > 1 {
+		m.setBindings[n-2] |= m.setBindings[n-1]
+	}
+	m.setBindings = m.setBindings[:n-1]
 }
 
 func (m *Matcher) Match(a Pattern, b ast.Node) bool {
